@@ -134,7 +134,7 @@ def generic_copy_tie(tie):
 
 def main(tier):
     t0 = time.time()
-    proof = common.proof_obligations("C07", modules=["EduceModel.Props.C07", "EduceModel.Props.E2E"])
+    proof = common.proof_obligations("C07", modules=["EduceModel.Props.C07", "EduceModel.Props.E2E", "EduceModel.Props.Profile"])
     n_defs, cap_vals, cap_pairs = (200, 10, 120) if tier == "quick" else (2000, 30, 600)
     tie = b1.run_b1("C07", P(cap_pairs), n_defs, cap_vals, common.seed())
     try:
